@@ -2,13 +2,13 @@ SPECIFICATION Spec
 CONSTANTS
   Peers = {p1, p2}
   PeerSeq <- PSAll
-  Trees = {t1}
+  Trees = {t1, t2}
   Acl <- None
   Kv <- None
-  Changes = {c1, c2}
+  Changes = {c1}
   MaxPend = 2
   Dev <- None
-  Budget <- Bq
+  Budget <- Bt2
 SYMMETRY Sym
 INVARIANT TypeOK
 INVARIANT IdxFollowsStore
